@@ -736,6 +736,24 @@ func (p *prover) lin0(v ssa.Value) lin {
 				p.add(dfact{"", a, 0, "x % n >= 0 (unsigned)"})
 			}
 			return atomLin(a)
+		case token.SHL:
+			a := p.atomOf(x)
+			if k, ok := constInt(x.Y); ok && k >= 0 && k < 31 {
+				if lo, hi, ok := p.globalRange(p.lin(x.X)); ok && lo >= 0 && hi < 1<<31 && fitsType(hi<<uint(k), x.Type()) {
+					p.add(dfact{a, "", hi << uint(k), "x << k with x in a known range"})
+					p.add(dfact{"", a, 0, "x << k >= 0"})
+				}
+			}
+			return atomLin(a)
+		case token.OR, token.XOR:
+			a := p.atomOf(x)
+			lx, hx, okx := p.globalRange(p.lin(x.X))
+			ly, hy, oky := p.globalRange(p.lin(x.Y))
+			if okx && oky && lx >= 0 && ly >= 0 && hx < 1<<40 && hy < 1<<40 {
+				p.add(dfact{a, "", hx + hy, "x | y <= x + y for non-negative operands"})
+				p.add(dfact{"", a, 0, "x | y >= 0"})
+			}
+			return atomLin(a)
 		case token.SHR:
 			a := p.atomOf(x)
 			if k, ok := constInt(x.Y); ok && k >= 0 && k < 63 {
@@ -930,6 +948,47 @@ func (p *prover) lin0(v ssa.Value) lin {
 		return atomLin(a)
 	}
 	return lin{}
+}
+
+// globalRange: constant bounds of a linear form from the function-wide facts (types, contracts, induction).
+func (p *prover) globalRange(l lin) (lo, hi int64, ok bool) {
+	if !l.ok || l.neg != "" {
+		return 0, 0, false
+	}
+	if l.pos == "" {
+		return l.c, l.c, true
+	}
+	dh, ok1 := p.shortest(p.global, l.pos, "")
+	dl, ok2 := p.shortest(p.global, "", l.pos)
+	if !ok1 || !ok2 || dh > 1<<50 || dl > 1<<50 {
+		return 0, 0, false
+	}
+	return -dl + l.c, dh + l.c, true
+}
+
+// fitsType: the non-negative value v is representable in the integer type t (the operation did not wrap).
+func fitsType(v int64, t types.Type) bool {
+	b, ok := t.Underlying().(*types.Basic)
+	if !ok || v < 0 {
+		return false
+	}
+	switch b.Kind() {
+	case types.Uint8:
+		return v <= 255
+	case types.Int8:
+		return v <= 127
+	case types.Uint16:
+		return v <= 65535
+	case types.Int16:
+		return v <= 32767
+	case types.Int32:
+		return v <= math.MaxInt32
+	case types.Uint32:
+		return v <= math.MaxUint32
+	case types.Int, types.Int64, types.Uint, types.Uint64, types.Uintptr:
+		return true
+	}
+	return false
 }
 
 func isUnsignedOrNonNeg(t types.Type) bool {
